@@ -18,6 +18,7 @@ type zzRDA struct {
 	kind   []int // per relative height
 	blobs  [][][]byte
 	fails  []int // failures already served per height
+	errs   []error // which error a failing fetch returns, per height
 	idsLog []uint64
 	getLog []int
 }
@@ -51,12 +52,12 @@ func (d *zzRDA) GetIDs(ctx context.Context, height uint64, ns []byte) (*coreda.G
 	case zzFetchErrOnce:
 		if d.fails[r] < 1 {
 			d.fails[r]++
-			return nil, zzErrInjected
+			return nil, d.errs[r]
 		}
 	case zzFetchErrPersist:
 		if d.fails[r] < 10 {
 			d.fails[r]++
-			return nil, zzErrInjected
+			return nil, d.errs[r]
 		}
 	case zzFetchEmptyIDs:
 		return &coreda.GetIDsResult{}, nil
@@ -78,7 +79,7 @@ func (d *zzRDA) Get(ctx context.Context, ids []coreda.ID, ns []byte) ([]coreda.B
 	r := int(ids[0][8])
 	if d.kind[r] == zzFetchGetFailsOnce && d.fails[r] < 1 {
 		d.fails[r]++
-		return nil, zzErrInjected
+		return nil, d.errs[r]
 	}
 	out := make([]coreda.Blob, len(ids))
 	for i, id := range ids {
@@ -109,12 +110,18 @@ const (
 // combination of fetch behaviours and up to 2 blobs per height drawn from
 // genuine headers/data, junk, empty, forged and unsigned headers; the loop is
 // woken three more times and then stopped.
-func ZZ_C09_scan() { zzC09Scan(false) }
+func ZZ_C09_scan() { zzC09Scan(0) }
 
 // ZZ_C09_blob_pairs: every ordered pair of blob kinds at one height.
-func ZZ_C09_blob_pairs() { zzC09Scan(true) }
+func ZZ_C09_blob_pairs() { zzC09Scan(1) }
 
-func zzC09Scan(pairs bool) {
+// ZZ_C09_errors: a failing fetch may return any error the DA interface
+// defines (or the fetch timeout), plain or wrapped: the height is retried,
+// never skipped.
+func ZZ_C09_errors() { zzC09Scan(2) }
+
+func zzC09Scan(mode int) {
+	pairs := mode == 1
 	zzsym.FreezeClock()
 	a := zzsym.U64("start")
 	zzsym.Assume(a < 1<<62)
@@ -125,7 +132,9 @@ func zzC09Scan(pairs bool) {
 	e.store.height = H
 	delete(e.store.blocks, H+1)
 	delete(e.store.blocks, H+2)
-	rda := &zzRDA{start: a, kind: make([]int, 2), fails: make([]int, 2), blobs: make([][][]byte, 2)}
+	rda := &zzRDA{start: a, kind: make([]int, 2), fails: make([]int, 2), blobs: make([][][]byte, 2), errs: []error{zzErrInjected, zzErrInjected}}
+	// every error the DA interface defines (plus the fetch timeout) may be what a failing fetch returns
+	allErrs := []error{zzErrInjected, context.DeadlineExceeded, coreda.ErrContextDeadline, coreda.ErrContextCanceled, coreda.ErrTxTimedOut, coreda.ErrBlobSizeOverLimit, coreda.ErrTxAlreadyInMempool, coreda.ErrTxIncorrectAccountSequence}
 	mk := func(kind int) []byte {
 		switch kind {
 		case zzBlobEmpty:
@@ -154,15 +163,36 @@ func zzC09Scan(pairs bool) {
 			if r == 0 {
 				nb = 2
 			}
+		} else if mode == 2 {
+			// every defined error, on the listing or on a chunk, once or for a whole retry budget
+			if r == 0 {
+				rda.kind[r] = []int{zzFetchErrOnce, zzFetchErrPersist, zzFetchGetFailsOnce}[zzsym.Pick("fetch", 3)]
+				nb = 1
+				rda.errs[r] = allErrs[zzsym.Pick("err", len(allErrs))]
+				if zzsym.Bool("errwrapped") {
+					rda.errs[r] = fmt.Errorf("rpc failed: %w", rda.errs[r])
+				}
+			} else {
+				rda.kind[r] = zzFetchOK
+			}
 		} else if r == 0 {
 			rda.kind[r] = zzsym.Pick("fetch", zzFetchKinds)
 			nb = zzsym.Pick("nblobs", 2)
+			if k := rda.kind[r]; false && k == zzFetchErrOnce {
+				rda.errs[r] = allErrs[zzsym.Pick("err", len(allErrs))]
+				if zzsym.Bool("errwrapped") {
+					rda.errs[r] = fmt.Errorf("rpc failed: %w", rda.errs[r])
+				}
+			}
 		} else {
 			rda.kind[r] = []int{zzFetchOK, zzFetchNotFound, zzFetchFuture, zzFetchErrOnce}[zzsym.Pick("fetch", 4)]
 			nb = zzsym.Pick("nblobs", 2)
 		}
 		for i := 0; i < nb; i++ {
-			k := zzsym.Pick("blob", zzBlobKinds)
+			k := zzBlobHeader1
+			if mode != 2 {
+				k = zzsym.Pick("blob", zzBlobKinds)
+			}
 			kinds[r] = append(kinds[r], k)
 			rda.blobs[r] = append(rda.blobs[r], mk(k))
 		}
@@ -178,6 +208,7 @@ func zzC09Scan(pairs bool) {
 		default:
 		}
 	}
+	zzsym.SetIdleDelay(1300) // native replay: longer than one retry budget (10 x 100 ms)
 	zzsym.OnIdle(wake)
 	zzsym.OnIdle(wake)
 	zzsym.OnIdle(wake)
